@@ -205,6 +205,7 @@ func runC06(c *Ctx) {
 	collectorLeavesOnlyWhenNothingIsOwed(c, "R2")
 	decodedEntriesNilChecked(c, "R9")
 	deliveryInOneCriticalSection(c, "R8")
+	responseMatchedByOid(c, "R8")
 	workerErrorPerJob(c, "R4")
 }
 
